@@ -34,6 +34,8 @@ func renderExpr(e sexpr) string {
 		return renderExpr(e["l"].(map[string]interface{})) + " < " + renderExpr(e["r"].(map[string]interface{}))
 	case "call":
 		return e["f"].(string) + "(" + renderExpr(e["a"].(map[string]interface{})) + ")"
+	case "tab":
+		return "(SELECT n FROM " + e["t"].(string) + ")"
 	}
 	core.Fail("unknown expression %v", e)
 	return ""
@@ -76,6 +78,16 @@ func renderStmts(ss []interface{}, ind string) string {
 			b.WriteString(ind + "END IF;\n")
 		case "while":
 			fmt.Fprintf(&b, "%sWHILE %s DO\n%s%sEND WHILE;\n", ind, ex("c"), renderStmts(s["body"].([]interface{}), ind+"  "), ind)
+		case "curdecl":
+			fmt.Fprintf(&b, "%sDECLARE %s CURSOR FOR SELECT %d;\n", ind, s["c"], int(s["v"].(float64)))
+		case "curuse":
+			fmt.Fprintf(&b, "%sOPEN %s;\n%sFETCH %s INTO %s;\n%sCLOSE %s;\n", ind, s["c"], ind, s["c"], s["x"], ind, s["c"])
+		case "curdispose":
+			fmt.Fprintf(&b, "%sDISPOSE CURSOR %s;\n", ind, s["c"])
+		case "tabdecl":
+			fmt.Fprintf(&b, "%sDECLARE %s VIEW (n) AS SELECT %d;\n", ind, s["t"], int(s["v"].(float64)))
+		case "tabdispose":
+			fmt.Fprintf(&b, "%sDISPOSE VIEW %s;\n", ind, s["t"])
 		case "func":
 			fmt.Fprintf(&b, "%sDECLARE %s FUNCTION (%s) AS BEGIN\n%s%sEND;\n", ind, s["f"], s["p"], renderStmts(s["body"].([]interface{}), ind+"  "), ind)
 		default:
@@ -89,6 +101,9 @@ type scopeCase struct {
 	Prog []interface{} `json:"prog"`
 	Out  []string      `json:"out"`
 	End  string        `json:"end"`
+	// the same program under the deviation "temporary tables cannot shadow" (Scope.tla, RunNS)
+	Out2 []string `json:"out2"`
+	End2 string   `json:"end2"`
 }
 
 func runScopeCase(r *core.Run, p *sut.Proc, c scopeCase) (string, string) {
@@ -98,6 +113,9 @@ func runScopeCase(r *core.Run, p *sut.Proc, c scopeCase) (string, string) {
 	end := "ok"
 	if res.Err != "" {
 		end = errClass(res)
+	}
+	if (end != c.End || strings.Join(got, "|") != strings.Join(c.Out, "|")) && end == c.End2 && strings.Join(got, "|") == strings.Join(c.Out2, "|") {
+		return "scope:temporary-table-cannot-shadow", fmt.Sprintf("a temporary table declared in a block under the name of an outer one is refused (%s) instead of shadowing it: program ends with %s printing %v, the property gives %s printing %v\n%s", firstLine(res.Err), end, got, c.End, c.Out, sql)
 	}
 	if end != c.End {
 		return "scope:end:" + c.End + "->" + end, fmt.Sprintf("program ends with %s, specification %s (%s)\n%s", end, c.End, firstLine(res.Err), sql)
